@@ -210,6 +210,20 @@ static void writer_index_hash(struct reftable_writer *w, struct strbuf *hash)
 	key->offsets[key->offset_len++] = off;
 }
 
+/* does an index entry for key, with any block position, fit in an index
+   block that is not the first block of the table? */
+static int writer_index_entry_fits(struct reftable_writer *w,
+				   struct strbuf *key)
+{
+	uint8_t tmp[10];
+	struct string_view sv = { .buf = tmp, .len = sizeof(tmp) };
+	int n = put_var_int(&sv, (uint64_t)key->len << 3);
+	/* block header, prefix length, suffix length, key, position, one
+	   restart, restart count. */
+	size_t sz = 4 + 1 + n + key->len + sizeof(tmp) + 3 + 2;
+	return sz <= w->opts.block_size;
+}
+
 static int writer_add_record(struct reftable_writer *w,
 			     struct reftable_record *rec)
 {
@@ -218,6 +232,13 @@ static int writer_add_record(struct reftable_writer *w,
 	reftable_record_key(rec, &key);
 	if (strbuf_cmp(&w->last_key, &key) >= 0) {
 		err = REFTABLE_API_ERROR;
+		goto done;
+	}
+
+	if (!writer_index_entry_fits(w, &key)) {
+		/* The record may be the last of its block, and then its key
+		   goes into an index block together with a block position. */
+		err = -1; /* as when the record itself does not fit a block */
 		goto done;
 	}
 
